@@ -25,6 +25,10 @@ func vpH_C14_api_after_shutdown() {
 	sub := &Subscription{topic: vpT0, ch: make(chan *Message, 2), cancelCh: ps.cancelCh, ctx: ps.ctx}
 	ps.mySubs[vpT0] = map[*Subscription]struct{}{sub: {}}
 	nd.vpAddPeer("p0", GossipSubID_v11, true)
+	// a relay reference taken while the node was alive (its cancel function is called after shutdown)
+	relayResp := make(chan RelayCancelFunc, 1)
+	ps.handleAddRelay(&addRelayReq{topic: "t-relay", resp: relayResp})
+	relayCancel := <-relayResp
 	// shutdown
 	nd.cancel()
 	exited := !vpBlocks(func() { ps.processLoop(ps.ctx) })
@@ -32,7 +36,10 @@ func vpH_C14_api_after_shutdown() {
 	ctx := context.Background()
 	// calls issued after cancellation: each returns (error or benign result) instead of blocking forever
 	var err error
-	switch vpInt("api", 0, 13) {
+	switch vpInt("api", 0, 14) {
+	case 14:
+		vpAssert(!vpBlocks(func() { relayCancel() }), "a relay cancel function returns after shutdown")
+		vpAssert(!vpBlocks(func() { relayCancel() }), "a relay cancel function may be called twice")
 	case 0:
 		vpAssert(!vpBlocks(func() { _, err = ps.Join("t1") }), "Join returns after shutdown")
 		vpAssert(err != nil, "Join reports the shutdown")
@@ -76,5 +83,30 @@ func vpH_C14_api_after_shutdown() {
 	case 13:
 		vpAssert(!vpBlocks(func() { err = t.SetScoreParams(&TopicScoreParams{TopicWeight: 1, TimeInMeshQuantum: 1, SkipAtomicValidation: true}) }), "SetScoreParams returns after shutdown")
 	}
+	vpCover(true, "ran")
+}
+
+// publish_buffer_full: the hand-off buffer from validation to the event loop is full at the moment of shutdown
+// (more than 32 messages in flight): Publish and the validation goroutines still return.
+func vpH_C14_publish_buffer_full() {
+	vpOpt("unwind", 40)
+	nd := vpNewNode("self", vpNodeCfg{router: "gossipsub"})
+	ps := nd.ps
+	t := &Topic{p: ps, topic: vpT0, evtHandlers: map[*TopicEventHandler]struct{}{}}
+	ps.myTopics[vpT0] = t
+	for i := 0; i < 32; i++ {
+		ps.sendMsg <- vpMkMsg("self", "0", vpT0)
+	}
+	nd.cancel()
+	// (the loop may still take one message before it sees the cancellation; either way nobody drains the buffer afterwards)
+	ctx := context.Background()
+	var err error
+	for i := 0; i < 3; i++ {
+		vpAssert(!vpBlocks(func() { err = t.Publish(ctx, []byte("x")) }), "Publish returns after shutdown even when the hand-off buffer to the event loop is full")
+	}
+	vpAssert(err != nil, "Publish reports the shutdown once the buffer is full")
+	// a validation goroutine (or a Publish past its last check) that was in flight at the moment of shutdown releases its
+	// message to the event loop through the same hand-off: it must return as well
+	vpAssert(!vpBlocks(func() { err = ps.val.sendMsgBlocking(vpMkMsg("self", "1", vpT0)) }), "the hand-off of a validated message to the event loop returns after shutdown even when its buffer is full")
 	vpCover(true, "ran")
 }
